@@ -447,7 +447,7 @@ def write_replay(prop, n, v, extra=None):
     rep = {'property': prop, 'conjs': v.get('conjs'), 'sig': v.get('sig'), 'how_to_replay': './check --replay ' + path}
     if init.get('ev') == 'init':
         rep.update({'cfg': init.get('cfg'), 'names': init.get('names'), 'b': init.get('b'), 'universe': init.get('universe'),
-                    'init_layers': init.get('layers'),
+                    'init_layers': init.get('layers'), 'init_wo': init.get('wo'),
                     'init_tree': [[e['p'], e['md']['k'], e['rd']['v']] for e in init.get('obs', {}).get('ents', [])[1:]],
                     'ops': [{k: e.get(k) for k in ('op', 'p', 'q', 'c', 'f', 'tick')} for e in seg[1:] if e.get('ev') == 'call'],
                     'observed': {'res': seg[-1].get('res') if len(seg) > 1 else None},
